@@ -440,8 +440,6 @@ def run_case(ctx, case):
                     break
             if not bad and Counter(rows_seen) != Counter(req_set_list(requested, swept)):
                 bad.append("rows' argument settings are not the evaluated settings, one row each")
-        if runner is not None and getattr(runner, "_last_df", None) is not None and runner._last_df is not out:
-            pass
         for b in bad[:1]:
             ctx.violation(case, b, dict(sig0, oracle="df-row-pairing"))
         ctx.observe(case, key=_key(case, axes), nontrivial=len(requested) >= 2,
